@@ -131,7 +131,7 @@ from xitorch import EditableModule, make_sibling  # noqa: E402
 
 BASE_KINDS = ["pure", "script",
               "nn_flat", "nn_nested", "nn_tied", "nn_method", "nn_call", "nn_extra",
-              "em_leaves", "em_derived", "em_alias", "em_list", "em_dict", "em_nn", "em_call"]
+              "em_leaves", "em_derived", "em_alias", "em_list", "em_dict", "em_nn", "em_call", "em_cplx"]
 SIB_BASES = ["pure", "nn_flat", "nn_nested", "nn_tied", "em_leaves", "em_derived", "em_alias", "em_list",
              "em_dict", "em_nn"]
 MULTI_KINDS = ["multi_em_em", "multi_em_nn", "multi_nn_em"]
@@ -461,11 +461,18 @@ def build(kind, fname, extra, rg, probe, vals=None):
         rep.nobj = 2
 
     # ---------------- xitorch.EditableModule
-    elif base in ("em_leaves", "em_call"):
+    elif base in ("em_leaves", "em_call", "em_cplx"):
         class EMLeaves(EditableModule):
             def __init__(self):
+                if base == "em_cplx":
+                    # tensors of other dtypes that the function does not use (used by other methods of the user's
+                    # object): a complex one FIRST, an integer one, then the real ones
+                    self.zc = torch.tensor([0.6 + 0.8j, 1.0j], dtype=torch.complex128)
+                    self.zi = torch.tensor([3, 1, 2])
                 self.a = a
                 self.b = b
+                if base == "em_cplx":
+                    self.zr = torch.tensor([0.25, -1.5], dtype=DT)
 
             def fn(self, *args):
                 probe.tick()
@@ -488,7 +495,7 @@ def build(kind, fname, extra, rg, probe, vals=None):
                     return [prefix + "a", prefix + "b"]
                 raise KeyError(methodname)
         m = EMLeaves()
-        rep.fcn = m.fn if base == "em_leaves" else m
+        rep.fcn = m if base == "em_call" else m.fn
         rep.params, rep.logp = (p,) + s_tuple, m.logp
         rep.holders = [m]
         rep.slots = [(m, "a", 0), (m, "b", 1)]
